@@ -56,6 +56,11 @@ CHECKS = {
         text='Theorems: given the diff-match-patch contract (only =,-,+ operations; both arguments reconstructed; equal arguments give no change segment), the source diff reconstructs both inputs, change_count is the number of changed segments and is zero iff the texts are equal; the visible-text diff satisfies the same with respect to exactly the two texts the side-by-side view reports; text nodes under script/style/title/head never influence the visible text. The contract is validated on every generated pair (full Unicode classes, tiny time limit forcing the coarse path). The blank-line folding and visibility filter are modelled and run against _get_visible_text. The substance of reconstruction lives in the C++ library: mostly contract, and the evidence says so.',
         note='Trusted: Coq kernel, gen_tables.py, extraction, harness. Oracle: fast_diff_match_patch.diff under contract DMP0-2; html5-parser/bs4 text-node extraction.',
         design='5/C05'),
+    'C04': dict(
+        technique='Coq proof: Permutation-based exactly-once theorem for the pairing pass under ANY contiguous opcode list, chain preservation of the re-balancing pass, validity (contiguous monotone cover) of the modelled difflib matcher for all sequences, zero-changes <-> same keys lemmas + extracted-model correspondence (links_diff_json and _assemble_diff with adversarial opcodes) + independent observer',
+        text='Theorems for all link lists: the diff lists every old link exactly once (unchanged/changed/removed) and every new link exactly once (unchanged/changed/added); unchanged entries pair equal exact keys; the re-balancing pass maps contiguous opcode lists to contiguous opcode lists; the difflib model always returns a contiguous cover (find_longest_match stays in its window); count 0 implies the same links on both sides, and position-wise equal keys give count 0 (via a proof that the matcher returns a single equal block on aligned sequences); in-page links never become entries. The model (Link, clean_href, link text extraction, dedup/sort, difflib, both passes) is run against links_diff_json on generated navigation-like pages and against _assemble_diff on arbitrary valid opcode lists.',
+        note='Trusted: Coq kernel, gen_tables.py, extraction, harness. Modelled not verified: difflib (re-modelled, run against the stdlib every time), html5-parser/bs4 element access, Python hashing (collisions ignored), str.lower context-free, dmp inside changed entries (C05 contract). Partial: "same SET => zero" is proved for key-aligned sorted lists; sort/dedup canonical form is validated, not proved.',
+        design='5/C04'),
 }
 
 NOT_YET = {}
